@@ -88,6 +88,24 @@ pub fn eval(case: &DdCase, obs: &mut CaseObs, prop: &str) -> Verdict {
     if wide_layer {
         obs.label("wide-layer");
     }
+    if t.join.is_some() {
+        obs.label("model:lattice");
+    }
+    // merged state equal to the state of a node of the same layer that was not merged away ("recycled" node)
+    {
+        let mut layer: Vec<St> = vec![];
+        for (_, e) in out.log.iter() {
+            match e {
+                crate::wrap::Ev::NextVar { states, .. } => layer = states.clone(),
+                crate::wrap::Ev::Merge { inputs, out: m } => {
+                    if layer.contains(m) && !inputs.contains(m) {
+                        obs.label("recycled-merged-node");
+                    }
+                }
+                _ => {}
+            }
+        }
+    }
     let fail = |m: String| Verdict::Fail(format!("{m} [sub-problem depth={} atom={} value={} subopt={:?} incumbent={} out: exact={} bv={:?} bev={:?} cutset={:?}]", sub.depth, sub.atom, sub.value, subopt, best_lb, out.is_exact, out.best_value, out.best_exact_value, out.cutset.iter().map(|c| (c.state.set, c.depth, c.value, c.ub)).collect::<Vec<_>>()));
     if let Some(p) = &out.panic {
         return fail(format!("panic: {p}"));
